@@ -77,6 +77,12 @@ DEFAULT_INDENT = "    "
 _OPENERS = frozenset(("(", "[", "{", "$(", "$[", "${", "!(", "![", "@(", "@!(", "@$("))
 _CLOSERS = frozenset((")", "]", "}"))
 
+# Openers whose content is a subprocess command: whitespace between its
+# tokens is the argument separator.
+_SUBPROC_OPENERS = frozenset(("$(", "$[", "!(", "![", "@$(", "@!("))
+# Openers whose content is Python again, whatever surrounds them.
+_PYTHON_OPENERS = frozenset(("@(", "${"))
+
 # Operators that always take a space on each side in Python mode.
 _ALWAYS_SPACED = frozenset(
     (
@@ -545,6 +551,25 @@ class _Formatter:
         if ct == COMMENT:
             return "  "
 
+        # Subprocess context: a gap between two tokens separates two
+        # arguments and no gap joins them into one (``host:/path``,
+        # ``https://x``, ``a,b``, ``if=/dev/zero``, ``x==y``). None of
+        # the Python spacing rules below may create or remove a gap
+        # here; runs of whitespace collapse to one space. Only the
+        # padding just inside the capture's own brackets is dropped.
+        if self._in_subproc_context():
+            if ps in _SUBPROC_OPENERS or ps in _PYTHON_OPENERS:
+                return ""
+            if (
+                cs in _CLOSERS
+                and self._brackets
+                and self._brackets[-1] in (_SUBPROC_OPENERS | _PYTHON_OPENERS)
+            ):
+                return ""
+            if prev.end[0] != cur.start[0]:
+                return " "
+            return " " if cur.start[1] > prev.end[1] else ""
+
         # Bracket adjacency: glue.
         if ps in _OPENERS:
             return ""
@@ -598,6 +623,17 @@ class _Formatter:
         if prev.end[0] != cur.start[0]:
             return " "
         return " " if cur.start[1] > prev.end[1] else ""
+
+    def _in_subproc_context(self) -> bool:
+        """True when the tokens being spaced are words of a subprocess
+        command: the innermost xonsh bracket decides, a bare command
+        line otherwise."""
+        for opener in reversed(self._brackets):
+            if opener in _SUBPROC_OPENERS:
+                return True
+            if opener in _PYTHON_OPENERS:
+                return False
+        return self._subproc_line
 
     # ---------------------------------------------------------------
     # Token rendering
